@@ -9,7 +9,8 @@ which no handler was used (`Outcome`).  The checkers state the property, clause 
   `parses`   exactly one well-formed HTTP/1.x response and nothing after it
   `status`   it carries the handler's status code (500 if the handler raised)
   `std`      the standard headers `Server`, `Date` come first
-  `headers`  every returned header (name and value) occurs, in order, after the standard ones
+  `headers`  after the standard ones come exactly the returned headers (name and value), in order:
+             none is missing and the server adds none of its own (a second `Content-Length`, say)
   `body`     the body is byte-identical to the returned stream (empty when absent; HEAD is
              served exactly like GET by this server, so the same holds for HEAD)
   `errpage`  bare status ≥ 400 (no headers, no body) / raising handler / 400 / 404 ⇒ the
@@ -42,7 +43,11 @@ def errorPageClauses (env : Env) (isHead : Bool) (code : Nat) (r : Response) : L
       else true) &&
       r.body == (if isHead || !errHasPage code then [] else env.errPage code))]
 
-/-- clause list for a handler result -/
+/-- clause list for a handler result. `headers`: "exactly the handler's headers" — `send_response`
+contributes `Server` and `Date`, `_delegate_request` then sends the returned mapping item by item and
+ends the header block; anything else between the standard headers and the empty line (a
+`Content-Length: 0` of the server's own next to the handler's `Content-Length: 45`) is not the
+handler's response. The headers of `send_error` are `errorPageClauses`' business. -/
 def resultClauses (env : Env) (isHead : Bool) (res : Result) (r : Response) : List (String × Bool) :=
   match res with
   | .raised => errorPageClauses env isHead 500 r
@@ -51,7 +56,7 @@ def resultClauses (env : Env) (isHead : Bool) (res : Result) (r : Response) : Li
     else
       [("status", r.status == status),
        ("std", stdFirst r),
-       ("headers", (headers.getD []).isSublist (r.headers.drop 2)),
+       ("headers", r.headers.drop 2 == headers.getD []),
        ("body", r.body == body.getD [])]
 
 def outcomeClauses (env : Env) (isHead : Bool) (out : Outcome) (r : Response) : List (String × Bool) :=
